@@ -15,7 +15,9 @@ RULE = (
     "abstracted and converted back.  Oracle: Z3 equivalence (private context) of the result with the independently "
     "built reference term (descriptor) or with the original Z3 term (sweep, solver); any exception from "
     "claripy.simplify / Solver.simplify is a violation; from the two backend-level entry points only BackendError on "
-    "string-sorted input is accepted.  Non-trivial: operator node present; distinct by (route, descriptor) hash."
+    "string-sorted input is accepted; a store whose add()/satisfiable() raises before simplify() is called is "
+    "counted and not judged.  Substr/IndexOf position constants of symbolic string trees are <= 255 (Z3's sequence "
+    "rewriter unrolls over them and exhausts memory).  Non-trivial: operator node present; distinct by (route, descriptor) hash."
 )
 ASSUMPTIONS = ["equivalence of FP terms that Z3 cannot decide within the timeout is sampled over the hostile FP pool"]
 
